@@ -26,6 +26,23 @@ def run(ctx):
     fresh(ctx)
 
 
+def area_pushers(facts):
+    """the functions that add to the area list: bodies calling Vec<MemoryArea>::push / insert / extend (by role, not name)"""
+    out = []
+    for k, b in facts.bodies.items():
+        if b["glue"]:
+            continue
+        for blk in b["blocks"]:
+            t = blk["term"]
+            if t["k"] == "call":
+                n = F.callee_name(t)
+                short = n.rsplit("::", 1)[1].split("::<")[0] if "::" in n else n
+                if short in ("push", "insert", "extend", "append") and n.startswith("std::vec::Vec") and \
+                        "MemoryArea" in " ".join(t["f"].get("gargs", [])):
+                    out.append(k.split("::{closure")[0])
+    return sorted(set(out))
+
+
 def scan_outcome(outs):
     """('pass' if some path finished the scan after seeing the area, 'reject' if an Err left the scan)"""
     passed = rejected = False
@@ -59,13 +76,27 @@ def run_scan(ctx, body, args, point, extents, order):
 def overlap(ctx):
     ck, facts = ctx.check, ctx.facts
     total = 0
-    # ---------------- creation
-    body = facts.method(AXE, "mem_init_area_named")
-    where = "%s:%d (mem_init_area_named)" % (body["span"][0], body["span"][1])
-    accepted_overlap = []
-    rejected_disjoint = []
-    for o in C08.orderings(True):
-        args = [P.self_ref(True), A.W(("start",), 64), ("datavec",), ("name",)]
+    # ---------------- creation: every function that adds to the area list (found by role) must do the scan
+    pushers = area_pushers(facts)
+    ck.floor("functions adding to the area list", len(pushers), 1)
+    for pk in pushers:
+      body = facts.bodies[pk]
+      where = "%s:%d (%s)" % (body["span"][0], body["span"][1], body["name"])
+      accepted_overlap = []
+      rejected_disjoint = []
+      for o in C08.orderings(True):
+        args = [P.self_ref(True)]
+        seen_start = seen_data = False
+        for i in range(2, body["argc"] + 1):
+            ty = body["locals"][i]
+            if ty == ["u", 64] and not seen_start:
+                args.append(A.W(("start",), 64))
+                seen_start = True
+            elif isinstance(ty, list) and ty[0] == "adt" and ty[1] == "std::vec::Vec" and not seen_data:
+                args.append(("datavec",))
+                seen_data = True
+            else:
+                args.append(("name",) if not isinstance(ty, list) or ty[0] != "u" else A.W(("p%d" % i,), 64))
         outs, unroled = run_scan(ctx, body, args, ("start",), [("len", ("datavec",))], o)
         total += 1
         passed, rejected = scan_outcome(outs)
@@ -74,19 +105,19 @@ def overlap(ctx):
             accepted_overlap.append(M.fmt_order(o))
         if not ov and rejected and not passed:
             rejected_disjoint.append(M.fmt_order(o))
-    inst = "api=mem_init_area_named"
-    if accepted_overlap:
-        ck.violation("C10.overlap", inst, "accepts %d overlapping orderings (%s)" % (
-            len(accepted_overlap), "; ".join(accepted_overlap)), where=where,
-            witness={"orderings": accepted_overlap, "roles": "ns/ne = new start/end, os/oe = existing start/end"},
-            what="a new area that overlaps an existing one is accepted")
-    else:
-        ck.ok("C10.overlap", inst + ",sound")
-    if rejected_disjoint:
-        ck.violation("C10.overlap", inst, "rejects %d disjoint orderings (%s)" % (
-            len(rejected_disjoint), "; ".join(rejected_disjoint[:4])), where=where, witness={"orderings": rejected_disjoint})
-    else:
-        ck.ok("C10.overlap", inst + ",complete")
+      inst = "api=%s" % body["name"]
+      if accepted_overlap:
+          ck.violation("C10.overlap", inst, "accepts %d overlapping orderings (%s)" % (
+              len(accepted_overlap), "; ".join(accepted_overlap)), where=where,
+              witness={"orderings": accepted_overlap, "roles": "ns/ne = new start/end, os/oe = existing start/end"},
+              what="a new area that overlaps an existing one is accepted")
+      else:
+          ck.ok("C10.overlap", inst + ",sound")
+      if rejected_disjoint:
+          ck.violation("C10.overlap", inst, "rejects %d disjoint orderings (%s)" % (
+              len(rejected_disjoint), "; ".join(rejected_disjoint[:4])), where=where, witness={"orderings": rejected_disjoint})
+      else:
+          ck.ok("C10.overlap", inst + ",complete")
     # ---------------- resize
     body = facts.method(AXE, "mem_resize_section")
     where = "%s:%d (mem_resize_section)" % (body["span"][0], body["span"][1])
@@ -133,7 +164,7 @@ def overlap(ctx):
 
 def who(ctx):
     ck, facts = ctx.check, ctx.facts
-    allowed = {facts.method(AXE, n)["path"] for n in ("mem_init_area_named", "mem_resize_section", "mem_prot", "mem_write_bytes")}
+    allowed = {facts.method(AXE, n)["path"] for n in ("mem_resize_section", "mem_prot", "mem_write_bytes")} | set(area_pushers(facts))
     n = 0
     for k, b in facts.bodies.items():
         if b["glue"]:
@@ -172,6 +203,7 @@ def term(ctx):
     ck, facts = ctx.check, ctx.facts
     names = ("mem_init_zero_anywhere", "mem_init_anywhere", "init_stack", "init_stack_program_start")
     nloops = 0
+    apis_with_loop = 0
     I = A.Interp(facts)
     for nme in names:
         try:
@@ -183,28 +215,35 @@ def term(ctx):
         except KeyError as e:
             ck.violation("C10.term", "api=" + nme, str(e))
             continue
-        loops = I.loops_of(b)
-        bl = b["blocks"]
-        for h, lp in sorted(loops.items()):
-            # iterator loops terminate by construction
-            if any(bl[n]["term"]["k"] == "call" and F.callee_name(bl[n]["term"]).endswith("::next") and
-                   "Iterator" in (bl[n]["term"]["f"].get("def") or "") for n in lp["nodes"]):
-                continue
-            nloops += 1
-            inst = "api=%s,loop@bb%d" % (nme, h) if False else "api=%s" % nme
-            v = variant(b, lp)
-            if v is None:
-                v = semantic_variant(ctx, b, lp)
-            if v is None:
-                ck.violation("C10.term", inst, "free loop without a recognised variant",
-                             where=F.site_str(b, bl[h]["term"]["sp"]))
-            elif v[0] == "ok":
-                ck.ok("C10.term", inst)
-                ck.sample({"rule": "C10.term", "instance": inst, "variant": v[1]})
-            else:
-                ck.violation("C10.term", inst, v[1], where=v[2],
-                             what="retry loop makes no progress for some inputs (e.g. zero length): does not terminate")
-    ck.floor("retry loops", nloops, 4)
+        found_here = 0
+        for lb in private_cone(facts, b):
+            loops = I.loops_of(lb)
+            bl = lb["blocks"]
+            for h, lp in sorted(loops.items()):
+                # iterator loops terminate by construction
+                if any(bl[n]["term"]["k"] == "call" and F.callee_name(bl[n]["term"]).endswith("::next") and
+                       "Iterator" in (bl[n]["term"]["f"].get("def") or "") for n in lp["nodes"]):
+                    continue
+                nloops += 1
+                found_here += 1
+                inst = "api=%s" % nme
+                v = variant(lb, lp) if lb is b else None
+                if v is None or v[0] != "ok":
+                    v2 = semantic_variant(ctx, lb, lp, entry=b)
+                    v = v2 if v2 is not None else v
+                if v is None:
+                    ck.violation("C10.term", inst, "free loop without a recognised variant",
+                                 where=F.site_str(lb, bl[h]["term"]["sp"]))
+                elif v[0] == "ok":
+                    ck.ok("C10.term", inst)
+                    ck.sample({"rule": "C10.term", "instance": inst, "variant": v[1]})
+                else:
+                    ck.violation("C10.term", inst, v[1], where=v[2],
+                                 what="retry loop makes no progress for some inputs (e.g. zero length): does not terminate")
+        if found_here:
+            apis_with_loop += 1
+    ck.cov["retry_loops"] = nloops
+    ck.floor("allocator / stack APIs with a retry loop in their private cone", apis_with_loop, 4)
 
 
 def variant(b, lp):
@@ -255,7 +294,29 @@ def variant(b, lp):
     return None
 
 
-def semantic_variant(ctx, b, lp):
+def private_cone(facts, b):
+    """b plus the private (non-pub) methods of the machine and closures it reaches: the code a maintainer may move a loop into"""
+    out, todo = [], [b["path"]]
+    seen = set()
+    while todo:
+        k = todo.pop()
+        if k in seen or k not in facts.bodies:
+            continue
+        seen.add(k)
+        out.append(facts.bodies[k])
+        for c in facts.closures_of(k):
+            todo.append(c)
+        for blk in facts.bodies[k]["blocks"]:
+            t = blk["term"]
+            if t["k"] == "call":
+                cn = F.callee_name(t)
+                cb = facts.bodies.get(cn)
+                if cb is not None and cb.get("impl_self") == AXE and cb["vis"] != "pub" and cb["kind"] != "Closure" and not cb["glue"]:
+                    todo.append(cn)
+    return out
+
+
+def semantic_variant(ctx, b, lp, entry=None):
     """path form of the variant argument, independent of how the loop is spelled: the function is interpreted with the
     loop widened; on every path that comes back to the header after the generic iteration some local x satisfies
     x' = x + inc with inc >= 1 established on the path (constant, max(_, c >= 1), or a value the path tested to be
@@ -265,11 +326,13 @@ def semantic_variant(ctx, b, lp):
     h = min(lp["nodes"]) if "header" not in lp else lp["header"]
     mp = M.MemPrims(facts)
     pr = P.HandlerPrims(facts, ctx.roles)
+    entry = entry or b
+    inline_ok = {x["path"] for x in private_cone(facts, entry)}
 
     def icpt(I, path, frame, t, name, args):
         cb = facts.bodies.get(name)
-        if cb is not None and frame.body["path"] == b["path"] and cb.get("impl_self") == AXE and cb["kind"] != "Closure" \
-                and name not in pr.by_path:
+        if cb is not None and cb.get("impl_self") == AXE and cb["kind"] != "Closure" \
+                and name not in pr.by_path and name not in inline_ok:
             # calls into the rest of the machine from the loop's function: succeed or fail, nothing else matters here
             p2 = path.copy()
             rt = cb["locals"][0]
@@ -280,8 +343,8 @@ def semantic_variant(ctx, b, lp):
     I = A.Interp(facts, intercept=icpt, max_paths=20000)
     I.backedge_sink = []
     args = []
-    for i in range(1, b["argc"] + 1):
-        ty = b["locals"][i]
+    for i in range(1, entry["argc"] + 1):
+        ty = entry["locals"][i]
         if isinstance(ty, list) and ty[0] == "ref" and ty[2] == ["adt", AXE, []]:
             args.append(P.self_ref(bool(ty[1])))
         elif isinstance(ty, list) and ty[0] in ("u", "i"):
@@ -289,7 +352,7 @@ def semantic_variant(ctx, b, lp):
         else:
             args.append(("param", i))
     try:
-        list(I.run(b, args, A.Path()))
+        list(I.run(entry, args, A.Path()))
     except Exception:  # noqa
         return None
     arrivals = [(fr, bb, p) for fr, bb, p in I.backedge_sink if fr.body["path"] == b["path"] and bb in lp["nodes"]]
@@ -617,7 +680,8 @@ def fresh(ctx):
                 path.events.append(("rsp", args[2]))
                 return [(A.OK(A.UNIT), path)]
             return None
-        I = A.Interp(facts, intercept=icpt, may_inline=lambda n, bb: bb["kind"] == "Closure")
+        I = A.Interp(facts, intercept=icpt, may_inline=lambda n, bb: bb["kind"] == "Closure" or (
+            bb.get("impl_self") == AXE and bb["vis"] != "pub" and not bb.get("coroutine")))
         nargs = b["argc"]
         args = [P.self_ref(True)] + [A.W(("arg%d" % i,), 64) for i in range(1, nargs)]
         outs = list(I.run(b, args, A.Path()))
